@@ -33,7 +33,7 @@ ASSUMPTIONS = ["predictions are computed on the resulting state: a dependant mad
 
 NSHARDS = 16
 PREFIXES = ["", "Y", "Z", "E", "P", "T", "G", "M", "k", "h", "da", "d", "c", "m", "u", "n", "p", "f", "a", "z", "y"]
-BASES = ["s", "V", "Hz", "m", "mol", "Sv", "Wb", "A", "K", "g", "Pa", "cd"]
+BASES = ["s", "V", "Hz", "m", "mol", "Sv", "Wb", "A", "K", "g", "Pa", "cd", "S"]
 NONSI = ["foo", "sillyvolts", "mV/s", "xs", "m s", "s^x"]
 
 
